@@ -1,5 +1,8 @@
 // World: qtreetbl (C01-C04, and as a container for C11-C15)
 #include "wutil.h"
+#ifndef QSIM_STRUCT
+#define QSIM_STRUCT 1      // 0: this adapter is built without reading any private struct field (API-level oracles only)
+#endif
 #include <setjmp.h>
 #include <math.h>
 #include <algorithm>
@@ -197,12 +200,12 @@ struct TreeWorld : World {
     }
     void sut_destroy(Ctx &) override { if (t) { InSut s; t->free(t); } t = nullptr; }
     void sut_abandon() override { t = nullptr; }
-    void *sut_mutex() override { return t ? t->qmutex : nullptr; }
+    void *sut_mutex() override { return nullptr; }
     bool sut_user_lock() override { InSutLock s; t->lock(t); return true; }
     void sut_force_unlock() override { InSutLock s; t->unlock(t); }
     void sut_probe(Ctx &) override { InSut s; size_t n; void *p = t->find_min(t, &n); free(p); }
 
-    long budget() const { size_t n = t ? t->num : 0; return 100 + 8 * (long)(2 * log2((double)n + 2)); }
+    long budget() const { size_t n = t ? t->size(t) : 0; return 100 + 8 * (long)(2 * log2((double)n + 2)); }
 
 // run a SUT call under the comparator step budget (seq mode with a counting comparator only)
 #define TCALL(x, stmt)                                                                                       \
@@ -257,7 +260,7 @@ struct TreeWorld : World {
                     if (p) { size_t s2 = 0; void *q; TCALL(x, q = t->getobj(t, kb.p, kb.n, &s2, false)); sz = q ? s2 : 0; g_cmp_calls = 0; }
                 }
                 if (counting && g_cmp_calls > 0) {
-                    size_t n = t->num;
+                    size_t n = t->size(t);
                     long bound = (long)floor(2.0 * log2((double)n + 1.0) + 1e-9);
                     x.st.add("cmp.lookups");
                     if (g_cmp_calls > bound) x.fail("lookup-cost", "struct", "lookup among " + num((long long)n) + " keys used " + num(g_cmp_calls) + " comparisons, bound " + num(bound));
@@ -332,7 +335,7 @@ struct TreeWorld : World {
                 // continue the traversal from the returned cursor: every key exactly once (order unspecified)
                 std::vector<Bytes> seen;
                 int limit = op.c > 0 ? op.c : -1; bool stopped = false;
-                size_t guard = t->num * 2 + 8;
+                size_t guard = t->size(t) * 2 + 8;
                 for (;;) {
                     if (limit >= 0 && (int)seen.size() >= limit) { stopped = true; break; }
                     bool more; TCALL(x, more = t->getnext(t, &o, false));
@@ -381,15 +384,17 @@ struct TreeWorld : World {
     Bytes walk(Ctx &x, bool newmem, int limit, bool *stopped) {
         qtreetbl_obj_t o; memset(&o, 0, sizeof o);
         Bytes out; int cnt = 0;
-        size_t guard = t->num * 2 + 8;
+        size_t guard = t->size(t) * 2 + 8;
         int fired_seen = sim_fault_fired(), retries = 0;
         bool unfinished_at_entry = unfinished;
         walks_started++;
+#if QSIM_STRUCT
         if (sim_self() < 0) {
             if (t->root != last_root && last_root != nullptr) x.st.add("probe.root_changed_between_walks");
             last_root = t->root;
             if (t->tid == 255 || t->tid == 0) x.st.add("probe.epoch_wrap");
         }
+#endif
         for (;;) {
             if (limit >= 0 && cnt >= limit) { if (stopped) *stopped = true; return out; }
             bool more; TCALL(x, more = t->getnext(t, &o, newmem));
@@ -443,6 +448,7 @@ struct TreeWorld : World {
     }
 
     // ---------------- structural invariant (reads the public node fields)
+#if QSIM_STRUCT
     struct Chk { bool ok = true; std::string why; size_t count = 0; };
     int black_height(qtreetbl_obj_t *n, Chk &c, qtreetbl_obj_t *lo, qtreetbl_obj_t *hi, int depth, cmp_fn f) {
         if (!n) return 1;
@@ -472,6 +478,14 @@ struct TreeWorld : World {
         if (!c.ok) x.fail("structure", "struct", c.why + (lib ? " (qtreetbl_check agrees: " + num(lib) + ")" : " (qtreetbl_check says 0: disagrees)"));
         if (lib != 0) x.fail("structure", "struct", "qtreetbl_check() returned " + num(lib) + " on a tree the independent checker accepts");
     }
+#else
+    void sut_struct(Ctx &x) override {
+        if (!t) return;
+        int lib = qtreetbl_check(t);
+        x.st.add("struct.checks_api_only");
+        if (lib != 0) x.fail("structure", "struct", "qtreetbl_check() returned " + num(lib));
+    }
+#endif
 
     std::string render(const Op &op) const override {
         char b[200];
